@@ -18,6 +18,11 @@ CLAIMS = {
  "C18": dict(engine="coq-maps", text="Coq theorems (closed under the global context): the iterator state machines transcribed from symmetric_fold.rs yield, for all key-sorted maps of any size, exactly the differing keys once in ascending order (borrowed and owned diff), and MergeOnceWith pairs equal keys in global key order; tied to the code by running the extracted model and the real symmetric_fold/incr_merge on the same inputs (exhaustive small domain on all three map types + random).",
              note="trusted: Coq kernel, extraction (ExtrOcamlBasic), OCaml/Rust/python glue, hand transcription of the iterators (checked by correspondence), OrdMap::diff taken as its spec, PartialEq = structural equality"),
 }
+MAPS_NOTE = ("trusted: Coq kernel, extraction (ExtrOcamlBasic), OCaml/Rust/python glue, hand transcription of the operator closures "
+             "(lib.rs, btree_map.rs, im_rc.rs) into Model/MapOps.v (checked by correspondence), OrdMap taken as a sorted map, "
+             "map_with_old feeds the closure its previous output and re-runs it when the input changed (C01/C06)")
+CLAIMS["C15"] = dict(engine="coq-maps", note=MAPS_NOTE, text="Coq theorems (closed under the global context) over the step functions transcribed from the crate: for every user function and all key-sorted maps of any size, a recompute of incr_filter_mapi (hence incr_map/incr_mapi/incr_filter_map), incr_unordered_fold (invertible add/remove, optional update agreeing with remove-then-add, optional revert-to-init), incr_partition_mapi and incr_merge from an in-sync old pair yields the plain definition on the new input, and therefore so does every output over ANY sequence of inputs (which is why unobserved periods do not matter); tied to the code by running the extracted steps and the real operators (BTreeMap, Rc<BTreeMap>, OrdMap) on the same edit sequences with observe/unobserve periods, plus an oracle computing the plain definitions.")
+CLAIMS["C17"] = dict(engine="coq-maps", note=MAPS_NOTE, text="Coq theorems (closed under the global context): the user function of incr_(filter_)map(i) is invoked exactly on the added/changed keys, once each in key order, never on an unchanged key (except (re)initialisation, which visits every key once); the add/remove/update functions of incr_unordered_fold only on keys whose presence or value differs; the call log is part of the step functions' result and is compared with the instrumented real operators on generated edit sequences, plus an oracle on the crate's (round, key, role) log. The per-key graph operators (incr_mapi_ etc.) are not covered yet (see C16).")
 ENGINE = {
  "C01": "reads of in-use observers after every completed stabilise, model vs crate, plus a from-scratch reference evaluator over the history's expression trees",
  "C02": "per-stabilise invocation multisets (inv/foldcall/bindrun/rec) in both build profiles, plus the oracle: at most one call per node and arguments equal to the inputs' end-of-stabilise values read from the state dump",
